@@ -113,6 +113,9 @@ def engine_crosscheck(seed=0):
     def S_(s):
         return SymStr(z3.StringVal(s))
 
+    for i in ints + [10, 123456789, -40]:
+        both("f'{%d:d}'" % i, lambda: f"pos {i:d}!", lambda: _solve(rewrite.vf_fstr("pos ", (SymInt(z3.IntVal(i)), -1, "d"), "!")))
+        both("'%%d' %% %d" % i, lambda: "at %d." % i, lambda: _solve(rewrite.vf_mod("at %d.", SymInt(z3.IntVal(i)))))
     for s in strings:
         both("len(%r)" % s, lambda: len(s), lambda: rewrite.vf_len(S_(s)))
         both("%r.isspace()" % s, lambda: s.isspace(), lambda: S_(s).isspace())
